@@ -59,6 +59,8 @@ type Run struct {
 	stats   map[string]int
 	keySeen map[string]int
 
+	cache   map[string]any
+
 	ssaProg *ssa.Program
 	ssaPkgs map[string]*ssa.Package
 }
